@@ -448,6 +448,9 @@ class Exec(Engine):
             return z3.Or(*ors) if ors else z3.BoolVal(False)
         if isinstance(t, RecT):
             if x.t == STR and z3.is_string_value(x.z): return z3.BoolVal(x.z.as_string() in cont.z)
+        if isinstance(t, PyTupT):
+            ors = [self.eq(st, it, x) for it in cont.z]
+            return z3.Or(*ors) if ors else z3.BoolVal(False)
         h = self.reg.contains_hook
         if h is not None:
             r = h(self, st, cont, x, node)
